@@ -9,7 +9,7 @@ from sklearn.linear_model import LogisticRegression
 from sklearn.tree import DecisionTreeClassifier
 
 PROPERTY = "C10"
-RULE = ("Hypothesis draws binary data (two label values of any kind: ints incl. negative, floats, strings, either order; n 10..50, "
+RULE = ("Hypothesis draws binary data (two label values of any kind: ints incl. negative, floats, strings and words of different lengths (object and fixed-width unicode arrays), either order; n 10..50, "
         "d 1..3, two noisy blobs or XOR-like layouts so that trees get deeper than one node), max_depth 1..5, min_samples_leaf, "
         "min_samples_split, fit_improve_algo in {auto, none, intercept_sort, intercept_sort_always}, gamma, p1p2, base estimator in "
         "{LogisticRegression, DecisionTreeClassifier(max_depth=2), CentroidClassifier}, and a query batch. Oracle: observable clauses "
@@ -33,11 +33,18 @@ def _base(name):
     return CentroidClassifier()
 
 
+WORDS = ["a", "no", "yes", "b", "abc", "positive", "negative", "0", "10", "x y", "N", "maybe not"]
+
+
 def _labels_of(case):
     kind, a, b = case["label_kind"], case["la"], case["lb"]
     z = np.array(case["z"], dtype=int)
     if kind == "str":
         vals = np.array(["c%s" % a, "c%s" % b], dtype=object)
+    elif kind in ("words", "words-u"):
+        # words of different lengths, as an object array or a fixed-width unicode array (numpy would truncate a longer word written into a
+        # narrower array)
+        vals = np.array([WORDS[a % len(WORDS)], WORDS[b % len(WORDS)]], dtype=object if kind == "words" else None)
     elif kind == "float":
         vals = np.array([a + 0.5, b + 0.5])
     else:
@@ -166,8 +173,8 @@ def _cases(draw, tier="quick"):
         X.append(row)
         z.append(c)
     z[0], z[1] = 0, 1
-    kind = draw(st.sampled_from(["int", "int", "float", "str"]))
-    la, lb = draw(st.lists(st.integers(-5, 9), min_size=2, max_size=2, unique=True))
+    kind = draw(st.sampled_from(["int", "int", "float", "str", "words", "words-u"]))
+    la, lb = draw(st.lists(st.integers(-5, 9) if not kind.startswith("words") else st.integers(0, 11), min_size=2, max_size=2, unique=True))
     opts = dict(max_depth=draw(st.integers(1, 5)), min_samples_split=draw(st.integers(2, 6)), min_samples_leaf=draw(st.integers(1, 4)),
                 fit_improve_algo=draw(st.sampled_from(["auto", "auto", "none", "intercept_sort", "intercept_sort_always"])),
                 p1p2=draw(st.sampled_from([0.09, 0.0, 0.2])), gamma=draw(st.sampled_from([1.0, 0.0, 5.0])))
